@@ -140,6 +140,19 @@ func TestC13(t *testing.T) {
 		}
 		emitDecodeIPv4(c, kind+"/rt", pkt)
 		emitDecodeUDP(c, kind+"/rt", pkt[20:])
+		// the round trip itself: decoding what was assembled gives back identification, flags, TTL, protocol, addresses and payload
+		want := L{uint64(h.Identification), uint64(h.Flags), uint64(h.TTL), uint64(h.Protocol), uint64(src), uint64(dst)}
+		got, gotData := L{}, []byte{}
+		if v, err := layer.DecodeIPv4(pkt); err == nil {
+			got = L{uint64(v.Identification), uint64(v.Flags), uint64(v.TTL), uint64(v.Protocol), ipU32(v.Source), ipU32(v.Destination)}
+			gotData = v.Data
+		}
+		c.add(1314, kind+"/rt", true, args(want, got, B(pkt[20:]), B(gotData)), args(L{1}))
+		wantU, gotU, gotUD := L{uint64(u.SrcPort), uint64(u.DstPort)}, L{}, []byte{}
+		if v, err := layer.DecodeUDP(pkt[20:]); err == nil {
+			gotU, gotUD = L{uint64(v.SrcPort), uint64(v.DstPort)}, v.Data
+		}
+		c.add(1314, kind+"/rt-udp", true, args(wantU, gotU, B(data), B(gotUD)), args(L{1}))
 	}
 	// every payload length 0..1600
 	maxLen := scale(1600, 4000)
